@@ -11,6 +11,7 @@ package gocql
 import (
 	"bufio"
 	"bytes"
+	"context"
 	"encoding/binary"
 	"encoding/json"
 	"errors"
@@ -21,6 +22,7 @@ import (
 	"runtime"
 	"strings"
 	"sync"
+	"sync/atomic"
 	"testing"
 	"time"
 )
@@ -173,11 +175,101 @@ func (t *vfC04Tracer) Trace(id []byte) {
 type vfC04Sess struct {
 	node *vfC04Node
 	sess *Session
-	v    int
-	comp bool
+	v     int
+	comp  bool
+	fault *vfC04FaultDialer
 }
 
-func vfC04NewSess(v int, comp bool) (*vfC04Sess, error) {
+// ---------------------------------------------------------------- temporary read timeouts in the middle of a response
+
+type vfC04TimeoutErr struct{}
+
+func (vfC04TimeoutErr) Error() string   { return "i/o timeout (injected)" }
+func (vfC04TimeoutErr) Timeout() bool   { return true }
+func (vfC04TimeoutErr) Temporary() bool { return true }
+
+// vfC04FaultConn is the client side of the socket.  When armed it hands the driver exactly `left`
+// more bytes and then reports one temporary timeout (what an expired read deadline looks like)
+// before it goes on delivering: a response that arrives in two pieces.  No clock is involved.
+type vfC04FaultConn struct {
+	net.Conn
+	mu    sync.Mutex
+	armed bool
+	left  int
+	fired *int64
+	buf   []byte // read from the socket, not yet handed to the driver (only the reading goroutine touches it)
+}
+
+func (c *vfC04FaultConn) arm(n int) {
+	c.mu.Lock()
+	c.armed, c.left = true, n
+	c.mu.Unlock()
+}
+
+func (c *vfC04FaultConn) Read(p []byte) (int, error) {
+	// the receive loop is usually already blocked in Read when the harness arms the fault, so the
+	// budget is applied to what is handed out, not to what is read from the socket
+	if len(c.buf) == 0 {
+		tmp := make([]byte, 4096)
+		n, err := c.Conn.Read(tmp)
+		if n == 0 {
+			return 0, err
+		}
+		c.buf = tmp[:n]
+	}
+	c.mu.Lock()
+	defer c.mu.Unlock()
+	n := len(p)
+	if n > len(c.buf) {
+		n = len(c.buf)
+	}
+	if c.armed {
+		if c.left == 0 {
+			c.armed = false
+			atomic.AddInt64(c.fired, 1)
+			return 0, vfC04TimeoutErr{}
+		}
+		if n > c.left {
+			n = c.left
+		}
+		c.left -= n
+	}
+	copy(p, c.buf[:n])
+	c.buf = c.buf[n:]
+	return n, nil
+}
+
+type vfC04FaultDialer struct {
+	mu    sync.Mutex
+	last  *vfC04FaultConn
+	fired *int64
+}
+
+func (d *vfC04FaultDialer) DialContext(ctx context.Context, network, addr string) (net.Conn, error) {
+	var nd net.Dialer
+	c, err := nd.DialContext(ctx, network, addr)
+	if err != nil {
+		return nil, err
+	}
+	fc := &vfC04FaultConn{Conn: c, fired: d.fired}
+	d.mu.Lock()
+	d.last = fc
+	d.mu.Unlock()
+	return fc, nil
+}
+
+func (d *vfC04FaultDialer) arm(n int) {
+	d.mu.Lock()
+	c := d.last
+	d.mu.Unlock()
+	if c != nil {
+		c.arm(n)
+	}
+}
+
+var vfC04FaultsFired int64
+
+func vfC04NewSess(v int, comp bool, fault bool) (*vfC04Sess, error) {
 	node, err := vfC04NewNode(comp)
 	if err != nil {
 		return nil, err
@@ -193,12 +285,17 @@ func vfC04NewSess(v int, comp bool) (*vfC04Sess, error) {
 	if comp {
 		cl.Compressor = SnappyCompressor{}
 	}
+	var fd *vfC04FaultDialer
+	if fault {
+		fd = &vfC04FaultDialer{fired: &vfC04FaultsFired}
+		cl.Dialer = fd
+	}
 	s, err := cl.CreateSession()
 	if err != nil {
 		node.stop()
 		return nil, err
 	}
-	return &vfC04Sess{node: node, sess: s, v: v, comp: comp}, nil
+	return &vfC04Sess{node: node, sess: s, v: v, comp: comp, fault: fd}, nil
 }
 
 func (s *vfC04Sess) close() {
@@ -223,7 +320,16 @@ func vfC04SessView(s *vfC04Sess, c *vfC04Case, mode string, skip, iterOnly bool)
 		stmt = fmt.Sprintf("LIST vf_c04_%d_%s", c.ID, mode)
 	}
 	tracer := &vfC04Tracer{}
+	hs := 9
+	if c.V < 3 {
+		hs = 8
+	}
 	open := func() (*Iter, *framer, error) {
+		if s.fault != nil {
+			// the next response (PREPARED the first time, then the result) arrives as header + a few
+			// body bytes, a temporary read timeout, then the rest
+			s.fault.arm(hs + 1 + c.ID%5)
+		}
 		q := s.sess.Query(stmt).Trace(tracer).PageState(nil)
 		if !skip {
 			q = q.NoSkipMetadata()
@@ -285,6 +391,26 @@ func vfC04Transient(v vfC04M) bool {
 		for _, x := range f {
 			if c, ok := x.(vfC04M); ok {
 				if s, _ := c["err"].(string); is(s) {
+					return true
+				}
+			}
+		}
+	}
+	return false
+}
+
+// vfC04Failed: the driver reported an error (or panicked) somewhere in this view.
+func vfC04Failed(v vfC04M) bool {
+	if s, _ := v["perr"].(string); s != "" {
+		return true
+	}
+	if s, _ := v["panic"].(string); s != "" {
+		return true
+	}
+	if f, ok := v["f"].(vfC04M); ok {
+		for _, x := range f {
+			if c, ok := x.(vfC04M); ok {
+				if s, _ := c["err"].(string); s != "" {
 					return true
 				}
 			}
@@ -408,9 +534,10 @@ func TestVfC04Run(t *testing.T) {
 			switch mode {
 			case "plain", "snappy":
 				fjobs[i%nfw] = append(fjobs[i%nfw], job{c, mode})
-			case "sess-full", "sess-skip", "sess-full-z", "sess-skip-z", "sess-prep", "sess-prep-z", "sess-iter", "sess-iter-z":
+			case "sess-full", "sess-skip", "sess-full-z", "sess-skip-z", "sess-prep", "sess-prep-z", "sess-iter", "sess-iter-z",
+				"sess-full-t", "sess-skip-t":
 				comp := strings.HasSuffix(mode, "-z")
-				key := fmt.Sprintf("%d/%v", c.V, comp)
+				key := fmt.Sprintf("%d/%v/%v", c.V, comp, strings.HasSuffix(mode, "-t"))
 				sjobs[key] = append(sjobs[key], job{c, mode})
 			default:
 				t.Fatalf("unknown mode %q", mode)
@@ -432,10 +559,11 @@ func TestVfC04Run(t *testing.T) {
 		go func(key string, js []job) {
 			defer wg.Done()
 			comp := strings.HasSuffix(js[0].mode, "-z")
-			s, err := vfC04NewSess(js[0].c.V, comp)
+			fault := strings.HasSuffix(js[0].mode, "-t")
+			s, err := vfC04NewSess(js[0].c.V, comp, fault)
 			for try := 0; err != nil && try < 3; try++ { // set-up is retried
 				time.Sleep(time.Second)
-				s, err = vfC04NewSess(js[0].c.V, comp)
+				s, err = vfC04NewSess(js[0].c.V, comp, fault)
 			}
 			if err != nil {
 				omu.Lock()
@@ -444,8 +572,17 @@ func TestVfC04Run(t *testing.T) {
 				omu.Unlock()
 				return
 			}
-			defer s.close()
+			defer func() { s.close() }()
+			failures := 0
 			for _, j := range js {
+				if fault && failures >= 5 {
+					// a driver that breaks under the injected timeouts leaves its connection unusable:
+					// do not wait out the client timeout for every remaining case
+					view := vfC04EmptyView(j.c.ID, j.mode)
+					view["perr"] = "harness: fault-injection session abandoned after repeated failures"
+					emit(view)
+					continue
+				}
 				var view vfC04M
 				for try := 0; try < 3; try++ {
 					if strings.HasPrefix(j.mode, "sess-prep") {
@@ -459,6 +596,15 @@ func TestVfC04Run(t *testing.T) {
 					view["transient"] = true // still timing out after the retries: not evidence about the code
 				}
 				emit(view)
+				if fault && vfC04Failed(view) {
+					failures++
+					s.close()
+					if ns, err := vfC04NewSess(js[0].c.V, comp, fault); err == nil {
+						s = ns
+					} else {
+						failures = 5
+					}
+				}
 			}
 		}(key, js)
 	}
@@ -466,5 +612,5 @@ func TestVfC04Run(t *testing.T) {
 	w.Flush()
 	fo.Close()
 	se, _ := json.Marshal(sessErr)
-	fmt.Printf("VFC04SUMMARY {\"cases\":%d,\"views\":%d,\"sess_skipped\":%d,\"sess_errors\":%s}\n", ncase, nview, nsessfail, se)
+	fmt.Printf("VFC04SUMMARY {\"cases\":%d,\"views\":%d,\"sess_skipped\":%d,\"sess_errors\":%s,\"faults_fired\":%d}\n", ncase, nview, nsessfail, se, atomic.LoadInt64(&vfC04FaultsFired))
 }
